@@ -468,6 +468,9 @@ class Describer:
         out = self._match_after_prefix(prefix, X, rest, d)
         if pre_guards and isinstance(out, dict) and out.get("k") != "opaque":
             out.setdefault("prefix_guards", []).extend(pre_guards)
+            out.setdefault("range_guards", [])
+            out["range_guards"] = [{"cond": subst(g["cond"], X, HOLE), "holds": g["holds"], "else": g["else"]} for g in pre_guards] + \
+                list(out["range_guards"])
             out.setdefault("raises", [])
             out["raises"] = sorted(set(out["raises"]) | {e for g in pre_guards for e in g["else"]})
         return out
@@ -507,6 +510,8 @@ class Describer:
         n = self.skip_guards(n, post)
         if post:
             d["raises"] = sorted(set(d["raises"]) | {e for g in post for e in g["else"]})
+        range_guards = [{"cond": subst(g["cond"], X, HOLE), "holds": g["holds"], "else": g["else"]} for g in post]
+        d["range_guards"] = range_guards
         if n is None:
             return opaque("no continuation after the null arm")
         # marked (enum switch over the prefix) -----------------------------------------------
@@ -526,7 +531,7 @@ class Describer:
                 return opaque("payload size is not prefix minus a constant")
             w2 = n.ev[3]
             out = {"k": "lenpref", "prefix": prefix, "bias": -lin[1], "null": d["null"], "payload": None,
-                   "exact": n.ev[0] == "xread", "raises": []}
+                   "exact": n.ev[0] == "xread", "raises": [], "range_guards": range_guards}
             leaves = pure_leaves(skip_noise(n.next))
             if leaves is None:
                 return opaque("length-prefixed payload followed by more reads")
@@ -557,7 +562,7 @@ class Describer:
             val = leaves[0][2]
             if not (isinstance(val, tuple) and val[0] == "repeat"):
                 return opaque("array reader does not return the collected items")
-            return {"k": "array", "prefix": prefix, "bias": -lin[1], "null": d["null"], "item": item}
+            return {"k": "array", "prefix": prefix, "bias": -lin[1], "null": d["null"], "item": item, "range_guards": range_guards}
         # scalar with pure continuation -----------------------------------------------------------
         leaves = pure_leaves(n)
         if leaves is None:
